@@ -39,7 +39,9 @@ func runC08(c0 *h.Ctx) {
 		small[0], small[1] = 0, 0
 		big1 := new(big.Int).Add(new(big.Int).SetBytes(small), N).Bytes() // same value as small + N: a DIFFERENT index key
 		origins := []c08Origin{{"a.example", rnd(c, 48)}, {"b.example", shared}, {"c.example", shared}, {"lead0.example", small},
-			{"plusN.example", big1}, {"ff.example", bytesFF(48)}, {"short.example", rnd(c, 20)}, {"", rnd(c, 48)}}
+			{"plusN.example", big1}, {"ff.example", bytesFF(48)}, {"short.example", rnd(c, 20)}, {"", rnd(c, 48)},
+			// names that differ only in presentation are different origins with their own index keys
+			{"a.example.", rnd(c, 48)}, {"A.Example", rnd(c, 48)}, {"a.example..", rnd(c, 48)}, {" a.example", rnd(c, 48)}}
 		om := map[string][]byte{}
 		for _, o := range origins {
 			om[o.name] = o.indexKey
@@ -130,6 +132,27 @@ func runC08(c0 *h.Ctx) {
 					if !bytes.Equal(idx, wantIdx) {
 						det["got"], det["want"] = h.Hex(idx), h.Hex(wantIdx)
 						c.Violation("the anonymous issuer origin ID equals HKDF-SHA-384(salt = client key, ikm = client key blinded by the origin index key, info IssuerOriginAlias) on every request of the history", det)
+					}
+					// the same client public key in its other SEC1 presentations (uncompressed, hybrid): refused, or the same ID
+					if cx, cy := elliptic.UnmarshalCompressed(curve, st.ClientKey()); cx != nil && (oi+round)%3 == 0 {
+						unc := elliptic.Marshal(curve, cx, cy)
+						hyb := append([]byte{6 + byte(cy.Bit(0))}, unc[1:]...)
+						for _, alt := range [][]byte{unc, hyb} {
+							a2 := type3.NewRateLimitedAttester(newRecCache())
+							var e1, e2 error
+							var idx2 []byte
+							pan, _ := h.Protect(func() {
+								e1 = a2.VerifyRequest(*st.Request(), blind, alt, anon)
+								idx2, e2 = a2.FinalizeIndex(alt, blind, brk, anon)
+							})
+							c.Count("index:client-key-other-encoding", 1, h.Hex(alt))
+							if pan {
+								c.Violation("the attester panics on another encoding of the client key", det)
+							} else if e2 == nil && !bytes.Equal(idx2, wantIdx) {
+								det["alt_client_key"], det["got"], det["want"], det["verify_err"] = h.Hex(alt), h.Hex(idx2), h.Hex(wantIdx), e1 != nil
+								c.Violation("the ID depends only on the client's public key: another encoding of the same key yields another ID", det)
+							}
+						}
 					}
 					who := h.Hex(secret) + "/" + new(big.Int).SetBytes(o.indexKey).String()
 					if prev, ok := seenIdx[string(idx)]; ok && prev != who {
